@@ -21,6 +21,7 @@ ASSUMPTIONS = [
     "reference vectors with some but not all zero components are not generated (division by zero is outside the statement)",
     "distinct integrand evaluations are counted by the harness as distinct coordinate tuples passed to the integrand since operation.initialize()",
     "prefix comparison: point counts exact, errors 1e-12 relative",
+    "continuations (continue_adaptive_refinement with other limits, most cases) are judged by the statement's clauses on the continuation's own part of the history arrays",
     "max_time (a quarter of the cases): the clock is owned by the harness (drive.FakeClock, tick tape from the case); asserted is only that a time-limited run ends in the state of one of its evaluations (arrays, no refinement after the last evaluation, reported result, prefix of the unlimited history), not at which reading the driver notices the budget",
 ]
 
@@ -141,6 +142,35 @@ def run_limited(sa, op, err, case, tol, min_ev, max_ev, maxsteps, hooks=None, cl
     finally:
         sa.refine, sa.evaluate_operation = orig_refine, orig_eval
     return res, state["refines"]
+
+
+def run_continued(sa, tol, min_ev, max_ev, maxsteps, hooks=None):
+    """continue_adaptive_refinement with the given limits on an object whose run has ended; counts refine() calls"""
+    state = dict(refines=0, evals=0)
+    orig_refine, orig_eval = sa.refine, sa.evaluate_operation
+
+    def rf():
+        if state["refines"] >= maxsteps:
+            raise drive.StopHistory()
+        orig_refine()
+        state["refines"] += 1
+
+    def ev():
+        r = orig_eval()
+        if hooks:
+            hooks(state["evals"])
+        state["evals"] += 1
+        return r
+    sa.refine, sa.evaluate_operation = rf, ev
+    res = None
+    try:
+        with drive.quiet():
+            res = sa.continue_adaptive_refinement(tol=tol, max_evaluations=max_ev, min_evaluations=min_ev)
+    except drive.StopHistory:
+        pass
+    finally:
+        sa.refine, sa.evaluate_operation = orig_refine, orig_eval
+    return res, state["refines"], state["evals"]
 
 
 def run(case):
@@ -286,6 +316,47 @@ def run(case):
         if N2[-1] != len(seen2):
             out.bad(sub + "/point-count-not-distinct-evaluations", "%s: reported %d, distinct integrand evaluations %d" % (tag, N2[-1], len(seen2)))
         out.cls("stop-by-" + why)
+        if case.get("cont") and not out.violations and kstar < last:
+            # the stopped run is CONTINUED with other limits (continue_adaptive_refinement): the stopping rule of the statement
+            # applies to the continuation with ITS OWN limits - it re-evaluates, stops at the first evaluation that meets them and
+            # does not refine afterwards; judged on the continuation's own part of the history arrays
+            i2 = min(kstar + 1 + i_t % 3, last)
+            cm = case["cont"] % 3
+            if cm == 0:
+                tol_c, min_c, max_c = E[i2] * (1 + 1e-9), 1, None             # tighter (or equal) tolerance taken from the reference history
+            elif cm == 1:
+                tol_c, min_c, max_c = -1.0, 1, N[i2] - 1                        # larger point limit, no tolerance
+            else:
+                tol_c, min_c, max_c = max(E[kstar], tol) * 2 + 1e-300, 1, None  # looser tolerance: already met, must not refine
+            results_c = []
+            res_c, nref_c, nev_c = run_continued(sa2, tol_c, min_c, max_c, 12,
+                                                 hooks=lambda k: results_c.append(np.array(op2.get_result(), dtype=float).copy()))
+            tag_c = "%s; then continued with tol=%r min=%r max=%r" % (tag, tol_c, min_c, max_c)
+            if res_c is not None:
+                Ec, Nc, Sc = [float(x) for x in res_c[5]], [int(x) for x in res_c[6]], [float(x) for x in res_c[7]]
+                j0 = kstar + 1
+                if not (len(Ec) == len(Nc) == len(Sc) == j0 + nev_c):
+                    out.bad(sub + "/continued/history-arrays-length", "%s: %d + %d evaluations, arrays %d/%d/%d" % (tag_c, j0, nev_c, len(Ec), len(Nc), len(Sc)))
+                else:
+                    def _stop_c(j):
+                        return (Ec[j] <= tol_c and Nc[j] >= min_c) or (max_c is not None and Nc[j] > max_c)
+                    if nref_c != nev_c - 1:
+                        out.bad(sub + "/continued/refinements-vs-evaluations", "%s: %d refinements, %d evaluations" % (tag_c, nref_c, nev_c))
+                    early = [j for j in range(j0, len(Ec) - 1) if _stop_c(j)]
+                    if early:
+                        out.bad(sub + "/continued/stop-rule/refined-after-stop-condition", "%s: rule met at continuation evaluation %d of %d (E=%s N=%s)" % (
+                            tag_c, early[0] - j0, nev_c - 1, Ec[j0:early[0] + 1], Nc[j0:early[0] + 1]))
+                    if not _stop_c(len(Ec) - 1):
+                        out.bad(sub + "/continued/stop-rule/stopped-too-early", "%s: E=%s N=%s" % (tag_c, Ec[j0:], Nc[j0:]))
+                    if any(Nc[i] > Nc[i + 1] for i in range(len(Nc) - 1)):
+                        out.bad(sub + "/continued/point-count-decreases", "%s: %s" % (tag_c, Nc))
+                    want = expected_error(results_c[-1], ref, p)
+                    if not abs(Ec[-1] - want) <= 1e-12 * (_base + abs(want)):
+                        out.bad(sub + "/continued/reported-error-not-deviation-from-reference", "%s: %.17g vs %.17g" % (tag_c, Ec[-1], want))
+                    if not np.allclose(np.asarray(res_c[3], dtype=float), results_c[-1], rtol=1e-13, atol=0):
+                        out.bad(sub + "/continued/returned-result-differs-from-last-evaluation", "%s: %s vs %s" % (tag_c, res_c[3], results_c[-1]))
+                    out.cls("continued-with-%s/%s" % (["tighter-tolerance", "larger-point-limit", "limits-already-met"][cm], "refined" if nref_c else "no-refinement"))
+            prev_objects = None      # the continued objects are not re-used for a second run
         if 0 < kstar < last:
             nt = True
         if kstar == 0:
@@ -375,6 +446,7 @@ def _strategy(kind):
             c["triples"] = draw(st.lists(st.tuples(st.integers(0, 40), st.sampled_from([0, 1, 1, 2, 3]), st.integers(0, 40), st.sampled_from([0, 0, 1, 2, 3]),
                                                    st.integers(0, 40), st.sampled_from([0, 1, 2, 3, 4])).map(list), min_size=1, max_size=3))
             c["nocache"] = draw(st.sampled_from([False, False, True]))
+            c["cont"] = draw(st.sampled_from([None, 0, 1, 2, 3]))
             if draw(st.integers(0, 3)) == 0:
                 c["clock"] = dict(ticks=draw(st.lists(st.sampled_from([1.0, 0.25, 1.0, 0.0, 3.0]), min_size=1, max_size=6)),
                                   model=draw(st.sampled_from(["same", "same", "same", "epoch"])),
